@@ -124,11 +124,11 @@ def run(tier):
     bound = 2 if tier == "thorough" else 1
     sched = 0
     tasks = [(functools.partial(sched_execute, v), sched_check, bound) for v in SCHED_VARIANTS]
-    for v, r in zip(SCHED_VARIANTS, scheddfs.explore_many(tasks)):
+    for v, r in zip(SCHED_VARIANTS, (scheddfs.explore_many(tasks) if tier != "thorough" else scheddfs.explore_many_capped(tasks, 1, 600))):
         sched += r["executions"]
         for (key, detail), choices in r["violations"]:
             rep.add(Violation(key, f"[{v}, bound {bound}] choices {choices}: {detail}", {"sched": v, "choices": choices}))
-        rep.sample({"schedule_exploration": f"{v}: application thread(s) in send_answer vs the I/O loop, line granularity", "preemption_bound": bound,
+        rep.sample({"schedule_exploration": f"{v}: application thread(s) in send_answer vs the I/O loop, line granularity", "preemption_bound": bound, "bound_completed_without_cap": r.get("bound_completed", bound), "capped": r.get("capped", False),
                     "executions": r["executions"], "distinct_outcomes": len(r["outcomes"]), "branching_points": r["max_points"]})
     rep.cov["schedules"] = sched
     depth = 7 if tier == "thorough" else 5
